@@ -73,7 +73,8 @@ type Step struct {
 // Fault kinds: read-err (At = index of the Read call), eof-at-byte (At = input
 // bytes delivered before the peer vanishes), write-err (At = index of the Write
 // call, Bytes accepted before failing), write-err-transient (that one write
-// fails, later ones succeed), empty-read (At = Read call that returns 0,nil).
+// fails, later ones succeed), empty-read (At = Read call that returns 0,nil),
+// write-stall (E2: the At-th Write never completes: the peer stopped reading).
 type Fault struct {
 	Kind  string `json:"kind"`
 	At    int    `json:"at"`
